@@ -73,6 +73,8 @@ structure LInScope where
   nonWitnessUtxo : Option LTx := none     -- TX_CLS = LTransaction
   witnessUtxo : Option LTxOut := none     -- TXOUT_CLS = LTransactionOutput
   lf : List (LInField × Bytes) := []
+  isPegin : Bool := false                 -- `self.is_pegin` (peg-in flag of the global transaction's input, version 0)
+  txIssuance : Option Issuance := none    -- `self._tx_issuance` (issuance of the global transaction's input, version 0)
 deriving Repr, Inhabited
 
 def lenOK (n : Option Nat) (v : Bytes) : Bool :=
@@ -147,12 +149,19 @@ def LInScope.assetIssuance (s : LInScope) : Option Issuance :=
            amount := amount, token := token }
   else none
 
+/-- `LInputScope.asset_issuance` after the fix `d53`: the scope's own issuance fields first, otherwise the issuance of
+    the global transaction's input the scope was created from (`self._tx_issuance`, version 0) -/
+def LInScope.issuance (s : LInScope) : Option Issuance :=
+  match s.assetIssuance with
+  | some a => some a
+  | none => s.txIssuance
+
 /-- `LInputScope.vin` -/
 def LInScope.vin (s : LInScope) : Option LTxIn :=
   match s.base.txid, s.base.vout with
   | some t, some n =>
     some { txid := t, vout := n, scriptSig := [], sequence := s.base.sequence.getD 0xFFFFFFFF,
-           issuance := s.assetIssuance }
+           isPegin := s.isPegin, issuance := s.issuance }
   | _, _ => none
 
 /-- `InputScope.utxo` (KEEP_ALL: no streamed `_utxo`) -/
@@ -203,6 +212,7 @@ structure LOutScope where
   base : OutScope := {}
   valueConf : Option Bytes := none      -- `self.value` holding the raw commitment of a version-0 global transaction
   lf : List (LOutField × Bytes) := []
+  txNonce : Option Bytes := none        -- `self._tx_ecdh_pubkey` (nonce of the global transaction's output, version 0)
 deriving Repr, Inhabited
 
 /-- `LOutputScope.read_value` (KEEP_ALL) -/
@@ -254,7 +264,11 @@ def LOutScope.vout (s : LOutScope) : Option LTxOut :=
       | none => (s.get .valueCommitment).map .conf
   match assetSel, valueSel, s.base.spk with
   | some a', some v, some spk =>
-    some { asset := normAsset a', value := v, nonce := if truthyB a then none else s.get .ecdhPubkey, spk := spk }
+    some { asset := normAsset a', value := v,
+           nonce := match (if truthyB a then none else s.get .ecdhPubkey) with
+                    | some n => some n
+                    | none => s.txNonce,
+           spk := spk }
   | _, _, _ => none
 
 /-! ### PSET -/
@@ -276,8 +290,9 @@ def LPset.tx (p : LPset) : Option LTx :=
     some { version := p.txVersion.getD 2, vin := vin, vout := vout, locktime := p.locktime.getD 0 }
   | _, _ => none
 
-/-- global scope of `PSBT.read_from` with `TX_CLS = LTransaction` (only the scriptSig emptiness is checked:
-    `inp.witness` is a `TxInWitness`, not a `Witness`) -/
+/-- global scope of `PSBT.read_from` with `TX_CLS = LTransaction`: scriptSigs must be empty, and (fix `b4`) the
+    transaction must not carry any witness (`tx.has_witness`: proofs, script / peg-in witness of an input, proofs of
+    an output) -/
 def lglobalFold : Option LTx → Option Nat → List KV → List KV → Option (Option LTx × Option Nat × List KV)
   | tx, ver, unk, [] => some (tx, ver, unk)
   | tx, ver, unk, (k, v) :: r =>
@@ -287,6 +302,7 @@ def lglobalFold : Option LTx → Option Nat → List KV → List KV → Option (
       | none => none
       | some t =>
         if t.vin.any (fun i => !i.scriptSig.isEmpty) then none
+        else if LTx.hasWitness t then none
         else lglobalFold (some t) ver unk r
     else if k = [0xfb] then
       if ver.isSome then none else
@@ -294,23 +310,24 @@ def lglobalFold : Option LTx → Option Nat → List KV → List KV → Option (
     else
       if (lookup k unk).isSome then none else lglobalFold tx ver (unk ++ [(k, v)]) r
 
-/-- `LInputScope(vin=vin)`: outpoint and sequence only — an issuance or peg-in flag of the global transaction's
-    input is NOT carried over (see finding D42) -/
+/-- `LInputScope(vin=vin)`: outpoint and sequence, and (fix `d53`, finding D53) the peg-in flag and the issuance of
+    the global transaction's input, kept beside the fields of the scope -/
 def lseedIn (tx : Option LTx) (i : Nat) : LInScope :=
   match tx with
   | some t => match t.vin[i]? with
-    | some vi => { base := { txid := some vi.txid, vout := some vi.vout, sequence := some vi.sequence } }
+    | some vi => { base := { txid := some vi.txid, vout := some vi.vout, sequence := some vi.sequence },
+                   isPegin := vi.isPegin, txIssuance := vi.issuance }
     | none => {}
   | none => {}
 
-/-- `LOutputScope(vout=vout)`: asset, value (integer or raw commitment), script -/
+/-- `LOutputScope(vout=vout)`: asset, value (integer or raw commitment), script, and (fix `d53`) the nonce -/
 def lseedOut (tx : Option LTx) (i : Nat) : LOutScope :=
   match tx with
   | some t => match t.vout[i]? with
     | some vo =>
       match vo.value with
-      | .explicit v => { base := { value := some v, spk := some vo.spk }, lf := [(.asset, vo.asset)] }
-      | .conf b => { base := { spk := some vo.spk }, valueConf := some b, lf := [(.asset, vo.asset)] }
+      | .explicit v => { base := { value := some v, spk := some vo.spk }, lf := [(.asset, vo.asset)], txNonce := vo.nonce }
+      | .conf b => { base := { spk := some vo.spk }, valueConf := some b, lf := [(.asset, vo.asset)], txNonce := vo.nonce }
     | none => {}
   | none => {}
 
